@@ -905,7 +905,13 @@ void AbstractDOMParser::endElement( const   XMLElementDecl&
     	XIncludeUtils xiu((XMLErrorReporter *) this);
 	    // process the XInclude node, then update the fCurrentNode with the new content
 	    if(xiu.parseDOMNodeDoingXInclude(fCurrentNode, fDocument, getScanner()->getEntityHandler()))
+	    {
             fCurrentNode = fCurrentParent->getLastChild();
+            // the include may have been replaced by nothing (empty fallback) while
+            // being the only child: same state as right after the start tag
+            if (fCurrentNode == 0)
+                fCurrentNode = fCurrentParent;
+	    }
     }
 }
 
